@@ -36,5 +36,33 @@ for k, _ in out["magicint2version"]:
             name = None
     ok.append((int(k), name))
 out["get_opcode"] = ok
+# the same under the file names that switch PyPy detection (load.is_pypy looks at the name for magics PyPy shares with CPython)
+named = []
+for k, base in ok:
+    t = tup(k)
+    if t is None or base is None:
+        continue
+    for fname in ("x.pypy38.pyc", "x.pypy39.pyc", "x.pypy310.pyc", "x.pypy37.pyc", "pypy38.pyc"):
+        try:
+            with contextlib.redirect_stdout(buf):
+                nm = get_opcode(tuple(t), is_pypy(k, fname)).__name__
+        except Exception as e:
+            nm = None
+        named.append((int(k), fname, nm))
+out["get_opcode_named"] = named
+# sysinfo2magic as a function: every release name of the table that is a plain X.Y.Z (final) or X.Y.ZrcN (candidate)
+import re
+si = []
+for name, bs in out["magics"]:
+    m = re.match(r"^(\d+)\.(\d+)\.(\d+)(?:rc(\d+))?$", name)
+    if not m:
+        continue
+    info = (int(m.group(1)), int(m.group(2)), int(m.group(3)), "candidate" if m.group(4) else "final", int(m.group(4) or 0))
+    try:
+        got = list(M.sysinfo2magic(info))
+    except Exception as e:
+        got = "raised " + type(e).__name__
+    si.append((name, list(info), got, bs))
+out["sysinfo2magic_calls"] = si
 out["python_magic_int"] = int(M.PYTHON_MAGIC_INT)
 print("@@JSON@@" + json.dumps(out))
